@@ -518,6 +518,77 @@ func c05History(r *Run, cfg idxConfig, batches [][]RowOpJ, stream string) bool {
 		if !checkIndexes("", true) {
 			return false
 		}
+		// direct calls that are refused: a checked Create (and Update) of a row that collides with a stored row on
+		// ONE of the schema indexes and is fresh on the others must fail as a whole: rows and indexes as before
+		var schemaSpecs []ISpec
+		for _, sp := range cfg.specs {
+			if sp.Schema && !wholeCollection(sp) {
+				schemaSpecs = append(schemaSpecs, sp)
+			}
+		}
+		if len(table) > 0 && len(schemaSpecs) > 0 {
+			us := make([]string, 0, len(table))
+			for u := range table {
+				us = append(us, u)
+			}
+			sort.Strings(us)
+			for k := 0; k < 2; k++ {
+				victim := table[us[r.Rng.Intn(len(us))]]
+				sp := schemaSpecs[r.Rng.Intn(len(schemaSpecs))]
+				row := genC05Row(r.Rng)
+				row["name"] = VA(AS(fmt.Sprintf("fresh%d", r.Rng.Intn(1000000))))
+				row["n"] = VA(AI(int64(100000 + r.Rng.Intn(1000000))))
+				tg := Atom{K: 's', S: fmt.Sprintf("ft%d", r.Rng.Intn(1000000))}
+				row["tag"] = VO(&tg)
+				xv := Atom{K: 'i', I: int64(200000 + r.Rng.Intn(1000000))}
+				row["x"] = VO(&xv)
+				for _, c := range sp.Cols {
+					row[c.Col] = victim[c.Col]
+				}
+				var cerr error
+				kind := "create"
+				func() {
+					defer func() {
+						if p := recover(); p != nil {
+							cerr = fmt.Errorf("panic: %v", p)
+						}
+					}()
+					if r.Rng.Intn(2) == 0 || len(us) < 2 {
+						cerr = rc.Create("u-refused", db.NewModel("T", "u-refused", row), true)
+					} else {
+						kind = "update"
+						// another stored row takes the victim's values in that index
+						other := us[r.Rng.Intn(len(us))]
+						if idxValOf(sp, table[other]) == idxValOf(sp, victim) {
+							return
+						}
+						_, cerr = rc.Update(other, db.NewModel("T", other, row), true)
+					}
+				}()
+				caseJSON["refused_"+kind+"_after_batch"] = map[string]interface{}{"batch": bi, "row": row, "collides_on": sp.Name}
+				if cerr == nil {
+					// (an Update that does not collide after all: the victim is the row itself) put things back
+					continue
+				}
+				if strings.HasPrefix(cerr.Error(), "panic") {
+					r.Violation(stream, caseJSON, cerr.Error(), "an error", true, fmt.Sprintf("batch %d: a refused %s panicked", bi, kind), "")
+					return false
+				}
+				got := map[string]Row{}
+				for u, m := range rc.Rows() {
+					_, rw := db.RowOf("T", m)
+					got[u] = rw
+				}
+				if canonTable(got) != canonTable(table) {
+					r.Violation(stream, caseJSON, canonTable(got), canonTable(table), true, fmt.Sprintf("batch %d: a refused %s changed the rows of the cache", bi, kind), "")
+					return false
+				}
+				if !checkIndexes(fmt.Sprintf(" (after a refused checked %s)", kind), false) {
+					return false
+				}
+				delete(caseJSON, "refused_"+kind+"_after_batch")
+			}
+		}
 		// reads must leave the indexes alone: conditional lookups pairing an equality on an indexed column
 		// (taken from a stored row, so several rows may share it) with a second condition that keeps only
 		// some of those rows; the indexes are compared with the scan again afterwards
